@@ -16,6 +16,14 @@ impl Token {
     }
 }
 
+#[cfg(feature = "verif-hooks")]
+impl Token {
+    /// Verification hook: the raw value of the token (0 for the zero token).
+    pub fn verif_raw(&self) -> usize {
+        self.0.map(|v| v.get()).unwrap_or(0)
+    }
+}
+
 impl fmt::Debug for Token {
     fn fmt(&self, f: &mut fmt::Formatter<'_>) -> fmt::Result {
         match self.0 {
